@@ -2,7 +2,7 @@
 (* Oracle table for the index part of C06: for every valid record sequence in the bound, the records that must be
    listed and the log passes with their frame counts and first data record, as LisIndex's ABSTRACT operators give them. *)
 EXTENDS LisIndex, Json, IOUtils, SequencesExt
-ValidSeqs == {s \in UNION {[1..n -> Recs] : n \in 1..(MaxLen + 1)} : Valid(s)}
+ValidSeqs == {s \in Candidates : Valid(s)}
 Row(s) == [file |-> s,
            listed |-> SetToSortSeq(AbsListed(s), <),
            passes |-> [n \in 1..Cardinality(DOMAIN AbsPasses(s)) |->
